@@ -595,7 +595,9 @@ KINDS = ["undeclared_gate", "undeclared_qreg", "index_out_of_range", "repeated_q
          "arity_params_more", "arity_params_less", "reset", "opaque", "power", "function", "unknown_identifier",
          "size_mismatch", "undeclared_creg_if", "undeclared_creg_measure", "measure_out_of_range", "measure_mixed",
          "body_undeclared_gate", "body_arity", "body_repeated_qubit", "body_unknown_qubit", "body_unknown_param",
-         "body_power", "body_function", "barrier_undeclared", "barrier_out_of_range"]
+         "body_power", "body_function", "barrier_undeclared", "barrier_out_of_range",
+         # a broadcast whose FIRST tuple is fine and a LATER tuple repeats a qubit: whole register r together with r[k], k >= 1
+         "repeated_later_tuple", "repeated_later_tuple_if", "repeated_later_tuple_3q"]
 
 
 def mutate(rng, p, kind=None):
@@ -613,6 +615,39 @@ def mutate(rng, p, kind=None):
         p["gates"].insert(rng.randrange(len(p["gates"]) + 1), {"opaque": True, "name": "opq", "params": [], "qubits": ["a"], "body": []})
         if rng.random() < 0.5:
             p["ops"].append({"app": "opq", "args": [], "qs": [list(rng.choice(allq))]})
+        return k, p
+    if k.startswith("repeated_later_tuple"):
+        big = [(r, n) for r, n in p["qregs"] if n >= 2]
+        if not big:
+            return None
+        r, n = rng.choice(big)
+        idx = rng.randrange(1, n)                       # never 0: the first tuple (r[0], r[idx]) is distinct
+        sig = dict(QELIB_SIG)
+        sig.update({g["name"]: (len(g["params"]), len(g["qubits"])) for g in p["gates"] if not g.get("opaque")})
+        want = 3 if k.endswith("3q") else 2
+        cands = [h for h, (a, q) in sig.items() if q == want]
+        if not cands:
+            return None
+        h = rng.choice(cands)
+        qs = [[r, None], [r, idx]]
+        if want == 3:
+            same = [x for x, m in p["qregs"] if m == n and x != r]
+            others = [(x, i) for x, m in p["qregs"] if x != r for i in range(m)]
+            if same and rng.random() < 0.6:
+                qs.append([rng.choice(same), None])
+            elif others:
+                qs.append(list(rng.choice(others)))
+            else:
+                free = [i for i in range(n) if i != idx]
+                qs.append([r, rng.choice(free)])     # also repeats in some tuple; still malformed
+        rng.shuffle(qs)
+        o = {"app": h, "args": [gen_expr(rng, []) for _ in range(sig[h][0])], "qs": qs}
+        if k.endswith("_if"):
+            if not p["cregs"]:
+                return None
+            cr = rng.choice(p["cregs"])
+            o["if"] = [cr[0], rng.randrange(2 ** cr[1])]
+        p["ops"].insert(rng.randrange(len(p["ops"]) + 1), o)
         return k, p
     if k.startswith("barrier"):
         p["ops"].insert(rng.randrange(len(p["ops"]) + 1),
@@ -796,8 +831,8 @@ def _stream(ctx, n_valid, n_bad, n_layout):
 def correspond(ctx):
     corr = Corr(rule="programs from the grammar of the supported subset (1-3 qregs, 0-3 cregs, <= 5 qubits, 0-4 gate definitions "
                      "nested <= 3, parameter expressions, indexed / whole-register arguments, barrier, measure, if) + one malformation "
-                     "each of 27 kinds + other layouts; non-trivial = uses a user gate, a broadcast, an if, a measurement or a parameter")
-    cases = _stream(ctx, ctx.n(260, 2400), ctx.n(200, 1500), ctx.n(40, 300))
+                     "each of 30 kinds (incl. broadcasts whose k-th tuple, k >= 1, repeats a qubit) + other layouts; non-trivial = uses a user gate, a broadcast, an if, a measurement or a parameter")
+    cases = _stream(ctx, ctx.n(260, 2400), ctx.n(240, 1800), ctx.n(40, 300))
     progs = [c[1] for c in cases]
     models = run_model(ctx.tier, progs)
     for (kind, p, layout), (model, wfl, wfs) in zip(cases, models):
